@@ -1,6 +1,7 @@
 package props
 
 import (
+	"sort"
 	"fmt"
 	"go/token"
 	"go/types"
@@ -257,6 +258,112 @@ func c10(c *Ctx) {
 	}
 	if v, ok := p.PkgConstInt("portalwire", "alpha"); ok {
 		r.Check(v == alpha, "R2.alpha-bound", "alpha", "-", "= 3", fmt.Sprintf("alpha is %d, the property states 3", v))
+	}
+
+	// ---- R1b one request per query: the lookup counts one query per peer; the function that
+	// performs it must put at most one request on the wire for that peer (a retry inside the
+	// worker asks the peer twice within one counted query)
+	{
+		sendsRequest := func(f *ssa.Function) bool {
+			return f != nil && core.InModule(f) && core.ReachesInstr(f, 3, func(in ssa.Instruction) bool {
+				ci, ok := in.(ssa.CallInstruction)
+				return ok && strings.HasSuffix(core.CalleeID(ci), ".TalkRequest")
+			})
+		}
+		// workers: module functions handed (directly or wrapped in a closure) to the lookup as its query function
+		workers := map[*ssa.Function]bool{}
+		for _, fn := range p.ModuleFuncs() {
+			for _, b := range fn.Blocks {
+				for _, in := range b.Instrs {
+					st, ok := in.(*ssa.Store)
+					if !ok {
+						continue
+					}
+					if _, f, _, ok := core.FieldRef(st.Addr); !ok || f != "queryfunc" {
+						continue
+					}
+					var q *ssa.Function
+					switch v := core.Unwrap(st.Val).(type) {
+					case *ssa.MakeClosure:
+						q = v.Fn.(*ssa.Function)
+					case *ssa.Function:
+						q = v
+					case *ssa.Parameter:
+						// newLookup(..., q queryFunc): the arguments at its call sites
+						for cf, sites := range p.CallersOfFn(fn) {
+							_ = cf
+							for _, cs := range sites {
+								for i, pa := range fn.Params {
+									if pa == v && i < len(cs.Common().Args) {
+										switch a := core.Unwrap(cs.Common().Args[i]).(type) {
+										case *ssa.MakeClosure:
+											workers[a.Fn.(*ssa.Function)] = true
+										case *ssa.Function:
+											workers[a] = true
+										}
+									}
+								}
+							}
+						}
+					}
+					if q != nil {
+						workers[q] = true
+					}
+				}
+			}
+		}
+		// a closure that only forwards to a method: that method is the worker
+		for w := range workers {
+			core.Calls(w, func(ci ssa.CallInstruction) {
+				if f := core.StaticCalleeFn(ci); f != nil && core.InModule(f) && sendsRequest(f) && !workers[f] {
+					direct := false
+					core.Calls(f, func(c2 ssa.CallInstruction) {
+						if strings.HasSuffix(core.CalleeID(c2), ".TalkRequest") {
+							direct = true
+						}
+					})
+					if !direct {
+						workers[f] = true
+					}
+				}
+			})
+		}
+		nw := 0
+		for _, w := range core.SortedFuncs(map[*ssa.Function][]ssa.CallInstruction(nil)) {
+			_ = w
+		}
+		var ws []*ssa.Function
+		for w := range workers {
+			ws = append(ws, w)
+		}
+		sort.Slice(ws, func(i, j int) bool { return ws[i].String() < ws[j].String() })
+		for _, w := range ws {
+			var reqs []ssa.CallInstruction
+			core.Calls(w, func(ci ssa.CallInstruction) {
+				if f := core.StaticCalleeFn(ci); f != nil && !workers[f] && sendsRequest(f) {
+					reqs = append(reqs, ci)
+				}
+			})
+			if len(reqs) == 0 {
+				continue
+			}
+			nw++
+			bad := ""
+			for _, a := range reqs {
+				if core.InLoop(a.Block()) {
+					bad = "a request is sent inside a loop"
+				}
+				for _, b := range reqs {
+					if a != b && core.MayFollow(a, b) {
+						bad = "a second request can follow the first on the same path (" + p.Pos(b.Pos()) + " after " + p.Pos(a.Pos()) + ")"
+					}
+				}
+			}
+			r.Check(bad == "", "R1.ask-once", core.FuncName(w)+" one-request-per-query", p.Pos(w.Pos()), "at most one request is put on the wire per counted query", "a peer can be asked more than once within one query of the lookup: "+bad)
+		}
+		if nw == 0 {
+			r.Fail("R1.ask-once", "query workers one-request-per-query", "-", "anchor-unresolved: no query function that sends a request was found")
+		}
 	}
 
 	// ---- R3 exactly one reply
